@@ -8,6 +8,7 @@ use etherparse::*;
 pub mod entry;
 pub mod exhaust;
 pub mod iplevel;
+pub mod single;
 pub mod whole;
 
 /// observation context for one decode of one input
